@@ -28,7 +28,7 @@ def run(ctx):
     if not m['deadline_hit']:
         if m['outcomes'].get('quoted-something', 0) < 1000 or m['outcomes'].get('passed-through', 0) < 100:
             raise HarnessError('vacuity guard: outcome classes %r' % m['outcomes'])
-        if c.get('entity_references_decoded', 0) < 10000 or c.get('result_buffer_growths', 0) < 16:
+        if c.get('entity_references_decoded', 0) < 10000 or c.get('result_buffer_growths', 0) < 5:
             raise HarnessError('vacuity guard: counters %r' % c)
     for k in ('strings_quoted', 'input_bytes', 'entity_references_decoded'):
         cov[k] = c.get(k, 0)
